@@ -539,6 +539,20 @@ func (u *Unit) evalCall(e *SExpr, env *Env) Val {
 	case "ref":
 		x := u.eval(e.Args[0], env)
 		return Val{T: u.termOf(x)}
+	case "ret", "ret0", "ret1", "ret2":
+		return u.evalRet(e, env)
+	case "has":
+		// has(m, k): k is a key of map m
+		m, k := u.eval(e.Args[0], env), u.eval(e.Args[1], env)
+		if m.Typ == nil {
+			u.specFail("has() of untyped map")
+		}
+		mt, ok := m.Typ.Underlying().(*types.Map)
+		if !ok {
+			u.specFail("has() of %s", m.Typ)
+		}
+		_, dh, _, _ := u.mapHeaps(env.st, mt)
+		return Val{T: and(not(eq(m.T, intLit(0))), sel(sel(dh, m.T), u.termOf(k)))}
 	case "typeis":
 		// typeis(x, "pkg/path.T") : dynamic type test on an interface value
 		x := u.eval(e.Args[0], env)
